@@ -159,13 +159,39 @@ def r2_score_limits(ctx):
               "GeneralRating.__init__ does not validate the profile after storing L and k and before running")
 
 
+def _seat_obligation(ctx, f, label, p, mname):
+    """The seat-range rejection of a constructor: in the constructor itself (before it runs the election), or in a
+    validator method of the class that the constructor calls before running, handing it the seat count and the profile."""
+    from vk.precond import _Probe
+    probe = _Probe(ctx)
+    if obligation(probe, f, label, f"{mname} < 1 or {mname} > NC", "ValueError", rename=_rn({f"len({p}.candidates)": "NC"}), int_atoms=INT, before_super=True):
+        probe.replay()
+        return True
+    sup = facts.super_init_call(f)
+    for c in astx.calls_in(f.node):
+        if not (isinstance(c.func, ast.Attribute) and astx.is_name(c.func.value, "self")) or (sup is not None and c.lineno >= sup.lineno) or f.cls is None:
+            continue
+        callee = f.cls.lookup(c.func.attr)
+        if callee is None or callee is f:
+            continue
+        b = astx.bind_args(c, callee.params, skip_self=True)
+        pm_ = [k for k, v in b.items() if astx.is_name(v, mname)]
+        pp_ = [k for k, v in b.items() if astx.is_name(v, p)]
+        if pm_ and pp_:
+            probe2 = _Probe(ctx)
+            if obligation(probe2, callee, label, f"{pm_[0]} < 1 or {pm_[0]} > NC", "ValueError", rename=_rn({f"len({pp_[0]}.candidates)": "NC"}), int_atoms=INT):
+                probe2.replay()
+                return True
+    probe.replay()
+    return False
+
+
 def r3_seat_range(ctx):
     prog = ctx.prog
     for cname in ("STV", "PluralityVeto", "RandomDictator", "BoostedRandomDictator"):
         f = prog.find_func(f"{cname}.__init__")
         p = f.params[1]
-        obligation(ctx, f, f"rows 13-16: {cname} rejects m < 1 or m > number of candidates (ValueError, before running)",
-                   "m < 1 or m > NC", "ValueError", rename=_rn({f"len({p}.candidates)": "NC"}), int_atoms=INT, before_super=True)
+        _seat_obligation(ctx, f, f"rows 13-16: {cname} rejects m < 1 or m > number of candidates (ValueError, before running)", p, "m")
     f = prog.find_func("GeneralRating.__init__")
     obligation(ctx, f, "row 17: rating rules reject m < 1 (ValueError, before validation)", "m < 1", "ValueError", int_atoms=INT, before_super=True)
     f = prog.find_func("elect_cands_from_set_ranking")
